@@ -174,7 +174,11 @@ V_HARNESS {
     _Bool perm = 1; for (long o = 0; o < NOBJ; o++) { int c0 = 0, c1 = 0; for (size_t i = 0; i < L; i++) if (i < n) { c0 += (R[i] == o); c1 += (t->items[i] == obj(o)); } if (c0 != c1) perm = 0; }
     V_ASSERT(sorted && perm && t->items[n] == Terminal, "sort: a permutation of the previous items ordered by the comparison function"); }
 #elif OP == OP_ITER
+#ifdef DUP   /* known finding: the cursor of a Tuple is the item itself, found again by identity -- the same object stored twice */
+  V_ASSUME(rn >= 2 && R[0] == R[1]);
+#else
   for (size_t i = 0; i < L; i++) for (size_t j = 0; j < L; j++) if (i < j && j < rn) V_ASSUME(R[i] != R[j]);
+#endif
   { size_t cnt = 0; _Bool ok = 1;
     var c = Tuple_Iter_Init(t);
     for (int s = 0; s < L + 2 && c != Terminal; s++) { if (cnt >= n || c != obj(R[cnt])) ok = 0; cnt++; c = Tuple_Iter_Next(t, c); }
